@@ -81,8 +81,9 @@ def main():
     if res["valid"]:
         d = os.path.join(VERIF, "seeded", name)
         os.makedirs(d, exist_ok=True)
-        shutil.copy(patch, os.path.join(d, "patch.diff"))
-        shutil.copy(demo, os.path.join(d, "demo.py"))
+        if os.path.abspath(mdir) != os.path.abspath(d):
+            shutil.copy(patch, os.path.join(d, "patch.diff"))
+            shutil.copy(demo, os.path.join(d, "demo.py"))
         meta.update({"breaks_property": pid, "validation": res,
                      "ran": ["demo on clean scratch worktree (exit %s)" % res["demo_clean_rc"], "demo with patch (exit %s)" % res["demo_mutant_rc"],
                              "pytest pass-set clean vs patched (lost: %s)" % res["tests_lost"]] + ["./check %s --tier quick with the patch applied to /repo" % c for c in checks]})
